@@ -24,7 +24,7 @@ class Cfg:
         read_wild=False, times=1, action="trim", revcomp=False, poly_a=False, length=None, trim_n=False, length_tag=None,
         strip_suffix=(), prefix="", suffix="", zero_cap=False, min_len=None, max_len=None, max_n=None, max_ee=None, max_aer=None,
         casava=False, discard_trimmed=False, discard_untrimmed=False, untrimmed_output=False, too_short_output=False,
-        too_long_output=False, demux=False, info_file=False, fasta=False,
+        too_long_output=False, demux=False, info_file=False, fasta=False, rename=None,
     )
 
     def __init__(self, **kw):
@@ -90,6 +90,8 @@ class Cfg:
             g.append(["-y", self.suffix])
         if self.zero_cap:
             g.append(["-z"])
+        if self.rename is not None:
+            g.append(["--rename", self.rename])
         if self.min_len is not None:
             g.append(["-m", str(self.min_len)])
         if self.max_len is not None:
@@ -271,7 +273,7 @@ def adapter_field(ad):
 
 def model_supported(cfg, objs):
     """option sets outside what Model/Pipeline.v covers (stated in DESIGN): float thresholds go through vm_compute"""
-    return cfg.max_ee is None and cfg.max_aer is None and not isinstance(cfg.max_n, float)
+    return cfg.max_ee is None and cfg.max_aer is None and not isinstance(cfg.max_n, float) and cfg.rename is None
 
 
 def model_line(cfg, objs, reads):
@@ -464,6 +466,13 @@ def make_read(rng, idx, plant, fasta, lowercase_ok=True):
     alpha = rng.choice(["ACGT", "ACGT", "ACGTN"])
     body = U.rand_seq(rng, rng.choice([0, 3, 8, 15, 25, 40]), alpha)
     parts = [body]
+    if len(plant) >= 2 and rng.random() < 0.35:
+        # stacked adapters (several rounds of --times): copies of all adapters in a row before and after the insert
+        seqs_ = [rng.choice(s) for s in plant]
+        rng.shuffle(seqs_)
+        k = rng.randint(0, len(seqs_))
+        parts = seqs_[:k] + [body] + seqs_[k:]
+        plant = []
     for seqs in plant:
         if rng.random() < 0.7:
             s = rng.choice(seqs)
